@@ -193,5 +193,5 @@ func genC14(t *rapid.T) c14Case {
 func init() { register("C14", checkC14) }
 
 func TestC14(t *testing.T) {
-	runProp(t, "C14", checkC14, nil, part[c14Case]{"concurrent-queries", scale(25, 200), genC14})
+	runProp(t, "C14", checkC14, nil, part[c14Case]{"concurrent-queries", scale(50, 200), genC14})
 }
